@@ -11,7 +11,8 @@ flat declaration is computed the way the property says:
   R10.b  prefixing composes: BoundRoute.pattern = prefix + route.pattern (the already-bound inner
          pattern), prefix defaults to '', SubApplication.prefix = prefix.rstrip('/');
   R10.c  middleware order (= R03.d), resource precedence at bind and request time (= R02.c), built-in
-         _application is the outermost binding application;
+         _application is the outermost binding application; the chain a bound route executes is compiled at that
+         binding from the merged list (never taken over from the route being re-bound);
   R10.d  error handling comes from the application being bound into: the value that ends up in
          self.render_error is app.error_handler's when rebind_render_error (default True, no caller switches it
          off) and the route's otherwise; it is checked against the merged resources; dispatch consults
@@ -1168,6 +1169,34 @@ def _r10b(rep, app, route):
               'bound_apps is not a new list holding the previous chain and then the binding application: %s' % why, route, where)
 
 
+# ------------------------------------------------------------------------------------------------ R10.c (own part)
+def _r10c_chain_compiled_here(rep, route):
+    """The chain a bound route executes is compiled at this binding from the middleware list merged at this binding: every
+    value that can reach ``self._execute`` is ``make_middleware_chain(<self.middlewares>, ..)``.  A chain taken over from
+    the route being re-bound runs the inner application's middleware instances (and renderer), whatever the new route
+    declares -- the flat declaration runs the outer ones."""
+    bi = route.func('BoundRoute.__init__')
+    fl = Flow(bi)
+    if not fl.defs.get('self._execute'):
+        raise AnalysisError('BoundRoute.__init__: self._execute is not assigned here')
+    lv = fl.leaves(_expr('self._execute'), 'exit')
+    _require_followed(rep.repo, bi, lv, 'self._execute')
+    merged = fl.aliases('self.middlewares')
+    bad = []
+    for l in lv:
+        v = l.value
+        first = argn(v, 'middlewares', 0) if isinstance(v, ast.Call) and call_name(v) == 'make_middleware_chain' and not l.opaque else None
+        at = l.stmt if isinstance(l.stmt, ast.AST) else None
+        if first is None or not (norm(first) in merged or fl.text(first, at) in merged):
+            bad.append(l)
+    ok = bool(lv) and not bad
+    rep.check('R10.c', fkey(bi, 'chain compiled for this binding'), ok,
+              'the executed chain is compiled at every binding from the middleware list merged at that binding' if ok else
+              'self._execute can be %s instead of make_middleware_chain(self.middlewares, ..): a re-bound route would run a chain compiled for '
+              'another binding (the inner application\'s middleware instances and renderer), not the merged list it declares' %
+              [short(l.value, 50) for l in bad], route, (bad[0].stmt if bad and isinstance(bad[0].stmt, ast.AST) else bi.node))
+
+
 # ------------------------------------------------------------------------------------------------ R10.d
 def _receivers(fi, fl, attrs):
     out = []
@@ -1526,10 +1555,13 @@ def run(rep):
     def slash_plumbing():
         from .c07 import check_slash_plumbing
         check_slash_plumbing(rep, 'R10.c')
+    def chain_compiled_here():
+        _r10c_chain_compiled_here(rep, route)
     rep_guard(merge_order)
     rep_guard(request_layers)
     rep_guard(slash_plumbing)
-    rep_guard(rep.floor, 'R10.c', 24)
+    rep_guard(chain_compiled_here)
+    rep_guard(rep.floor, 'R10.c', 25)
 
     # ---- R10.d -----------------------------------------------------------
     def error_handling_rules():
